@@ -26,6 +26,8 @@ type Anchors struct {
 	GetValue  *ssa.Function   // getValue(datum, path, opt...) (interface{}, bool, error)
 	Matchers  []*ssa.Function // doMatch*: (*MatchExpression, reflect.Value) (bool, error)
 	EqTable   *ssa.Function   // primitiveEqualityFn: reflect.Kind -> func(interface{}, reflect.Value) bool
+	EqLitIdx  int             // position of the coerced literal among a comparator's parameters
+	EqValIdx  int             // position of the reflected value
 	CoerceTab *ssa.Function   // getMatchExprValue: (*MatchExpression, reflect.Kind) (interface{}, error)
 	GetOpts   *ssa.Function
 
@@ -130,8 +132,14 @@ func FindAnchors(prog *Program) *Anchors {
 		case sig.Params().Len() == 1 && namedIs(p0, "reflect", "Kind") && sig.Results().Len() == 1:
 			// the table of comparators: func(reflect.Kind) func(literal interface{}, value reflect.Value) bool
 			if rs, ok := sig.Results().At(0).Type().Underlying().(*types.Signature); ok && a.EqTable == nil &&
-				rs.Params().Len() == 2 && isEmptyIface(rs.Params().At(0).Type()) && namedIs(rs.Params().At(1).Type(), "reflect", "Value") && rs.Results().Len() == 1 && isBool(rs.Results().At(0).Type()) {
-				a.EqTable = f
+				rs.Params().Len() == 2 && rs.Results().Len() == 1 && isBool(rs.Results().At(0).Type()) {
+				// (the coerced literal and the reflected value, in either order)
+				switch {
+				case isEmptyIface(rs.Params().At(0).Type()) && namedIs(rs.Params().At(1).Type(), "reflect", "Value"):
+					a.EqTable, a.EqLitIdx, a.EqValIdx = f, 0, 1
+				case isEmptyIface(rs.Params().At(1).Type()) && namedIs(rs.Params().At(0).Type(), "reflect", "Value"):
+					a.EqTable, a.EqLitIdx, a.EqValIdx = f, 1, 0
+				}
 			}
 		case sig.Params().Len() == 2 && coerceTabParams(sig) && sig.Results().Len() == 2 && isEmptyIface(sig.Results().At(0).Type()) && isErrorType(sig.Results().At(1).Type()):
 			// (the literal — as the match expression or as its MatchValue — and the kind, in either order)
@@ -491,4 +499,17 @@ func lookupResults(sig *types.Signature, rs []*Sym) (val, present, err *Sym, ok 
 		return getPath(g, []string{vf}), getPath(g, []string{pf}), rs[1], true
 	}
 	return nil, nil, nil, false
+}
+
+// cmpParams: a comparator's literal (interface{}) and value (reflect.Value) parameters, by type.
+func cmpParams(f *ssa.Function) (lit, val *ssa.Parameter) {
+	for _, p := range f.Params {
+		switch {
+		case isEmptyIface(p.Type()):
+			lit = p
+		case namedIs(p.Type(), "reflect", "Value"):
+			val = p
+		}
+	}
+	return
 }
